@@ -106,6 +106,11 @@ pub fn install_hook() {
             let full = format!("{msg} @ {loc}");
             let _ = LAST_PANIC.try_with(|p| *p.borrow_mut() = Some(full));
             let quiet = QUIET.try_with(|q| *q.borrow() > 0).unwrap_or(false);
+            if !quiet {
+                // one line per panic that no `catch` of the harness is waiting for; the check script reads
+                // the last one if the worker dies without a report
+                eprintln!("VERIF-PANIC: {}", format!("{msg} @ {loc}").replace('\n', " "));
+            }
             if !quiet && std::env::var("VERIF_VERBOSE").is_ok() {
                 prev(info);
             }
